@@ -1,4 +1,4 @@
-EXTRA_IMPORTS = ["Combine", "MergeFull", "ShareFull", "ShareWeak", "ComposeInst"]
+EXTRA_IMPORTS = ["Combine", "MergeFull", "ShareFull", "ShareWeak", "ComposeInst", "ComposeFull", "MonSound"]
 OPS += [("merge", "{α : Type} (n : Nat)", "Merge.machine α n", "MergeFull.merge_safe n s hs", "MergeFull")]
 SHARE = '''/-- `share`: proved for environments in which the source does not deliver from inside one of share's own deliveries
 (`noNestedFanout`, the restriction C12 makes in its own quantifier). -/
@@ -7,6 +7,43 @@ theorem C%s_share_partial {α : Type} :
   fun s hs => (ShareFull.share_safe_partial s hs).safeFor %d
 '''
 
+ORACLE = '''/-- the oracle that judges traces recorded from the real crate IS the monitor of these theorems: on every model execution the
+machine-free monitor `monRun` (Mon.lean), folded over the boundary trace alone, computes exactly the ghost carried by the configuration
+(`Inv/MonSound.lean`: `monRun_sound`), so `SafeFor %(n)d` can be read off the trace -/
+theorem C0%(n)d_oracle_is_the_monitor {St Loc α β : Type} (M : Machine St Loc α β) :
+    ∀ s, SReach M s →
+      (SafeFor %(n)d s ↔ (∀ v ∈ (monRun M.shape s.tr.reverse).g.viols, v.prop ≠ %(n)d) ∧
+        (%(n)d = 17 → (monRun M.shape s.tr.reverse).panicked = false)) :=
+  safeFor_iff_monRun M %(n)d
+
+'''
+PIPE = '''/-- pipelines `pipe!(source, op₁, …, opₙ)` of map / filter / scan / skip / take of ANY length, as operators against every conformant
+upstream and sink — C0%(n)d in FULL (both monitor layers).  `FullStage` (Inv/ComposeFull.lean): pipeable, one upstream and one sink, no
+orphan at top level, and DIRECT error paths (an `Error` arriving at either end is passed on by the handler that receives it, with
+nothing in between); closed under `compose`.  A general "Safe M₁ → Safe M₂ → Safe (compose M₁ M₂)" is FALSE (two executions at the
+end of Inv/ComposeFull.lean: a stage that delivers one more datum before relaying an upstream Error, over a `take` that completes on
+it; a stage that pulls before relaying its sink's Error, under a `take` that completes on the answer). -/
+theorem C0%(n)d_pipeline {S1 L1 S2 L2 α β γ : Type} {M1 : Machine S1 L1 α β} {M2 : Machine S2 L2 β γ}
+    (h1 : ComposeFull.FullStage M1) (h2 : ComposeFull.FullStage M2) : ∀ s, SReach (compose M1 M2) s → SafeFor %(n)d s :=
+  fun s hs => (ComposeFull.compose_safe h1 h2 s hs).1.safeFor %(n)d
+
+/-- the stages (and every composition of stages: `FullStage.compose`) -/
+theorem C0%(n)d_full_stages {σ α β : Type} (k : Relay.Kind σ α β) (hk : k.slotted = false → ∀ s a, (k.xfer s a).2 ≠ none) (max : Nat) :
+    ComposeFull.FullStage (Relay.machine k) ∧ ComposeFull.FullStage (Take.machine α max) :=
+  ⟨ComposeFull.Relay.fullStage k hk, ComposeFull.Take.fullStage max⟩
+
+/-- closed pipelines `pipe!(head, stages…, for_each(f))`, head = from_iter / concat! / flatten: C0%(n)d in full -/
+theorem C0%(n)d_closed_pipeline {S1 L1 S2 L2 α β γ : Type} {Msrc : Machine S1 L1 α β} {Mmid : Machine S2 L2 β γ}
+    (hsrc : UpSide Msrc) (hmid : Pipeable Mmid) :
+    ∀ s, SReach (compose (compose Msrc Mmid) (ForEach.machine γ)) s → SafeFor %(n)d s :=
+  fun s hs => (ComposeFull.closed_pipeline_full hsrc hmid s hs).1.safeFor %(n)d
+
+/-- `pipe!(from_iter(it), stages…)` as a source, against every conformant sink: C0%(n)d in full -/
+theorem C0%(n)d_fromIter_pipeline {ι α α' β S L : Type} (next : ι → Option (α × ι)) (it0 : ι) {Mmid : Machine S L α β}
+    (hmid : Pipeable Mmid) : ∀ s, SReach (compose (FromIter.machine α' next it0) Mmid) s → SafeFor %(n)d s :=
+  fun s hs => (ComposeFull.fromIter_pipeline_full next it0 hmid s hs).1.safeFor %(n)d
+
+'''
 EXTRA["04"] = SHARE % ("04", 4, 4) + '''/-- `share`, EVERY conformant environment (nested fan-out included): the protocol part of C04 holds — no upstream is subscribed twice or
 after the output is over, no Pull / Terminate is sent to an upstream that is not live: the only phase-level violations are late
 deliveries (C02/C03). -/
@@ -14,20 +51,7 @@ theorem C04_share_protocol {α : Type} :
     ∀ s, SReach (Share.machine α) s → ∀ v ∈ s.g.ph.viols, (∃ k, v = Viol.afterTerm k) ∨ (∃ k, v = Viol.afterDispose k) :=
   fun s hs => (ShareWeak.share_safe_weak s hs).1
 
-/-- pipelines `pipe!(source, op₁, …, opₙ)` of map / filter / scan / skip / take of ANY length (assume–guarantee, Inv/ComposeSafe.lean):
-the protocol part of C04 — no upstream subscribed twice or after the output is over, no Pull / Terminate / Error to an upstream that is
-not live — and, for closed pipelines ending in `for_each`, the same with `for_each` as the last stage. (The memory part of C04 — error
-relay, orphans at top level — is proved per operator above, not yet for pipelines: `_partial`.) -/
-theorem C04_pipeline_protocol_partial {S1 L1 S2 L2 α β γ : Type} {M1 : Machine S1 L1 α β} {M2 : Machine S2 L2 β γ}
-    (P1 : Pipeable M1) (P2 : Pipeable M2) : ∀ s, SReach (compose M1 M2) s → s.g.ph.viols = [] :=
-  fun s hs => ((P1.compose P2).safe s hs).1
-
-theorem C04_closed_pipeline_protocol_partial {S1 L1 S2 L2 α β γ : Type} {Msrc : Machine S1 L1 α β} {Mmid : Machine S2 L2 β γ}
-    (hsrc : UpSide Msrc) (hmid : Pipeable Mmid) :
-    ∀ s, SReach (compose (compose Msrc Mmid) (ForEach.machine γ)) s → s.g.ph.viols = [] :=
-  fun s hs => (closed_pipeline_safe hsrc hmid s hs).1
-
-'''+'''/-- `combine!`: the full statement is FALSE (known findings KF2, KF3: the sink's Pull / Terminate / Error are also sent to members that
+'''+(PIPE % dict(n=4))+(ORACLE % dict(n=4))+'''/-- `combine!`: the full statement is FALSE (known findings KF2, KF3: the sink's Pull / Terminate / Error are also sent to members that
 have ended, and a Pull broadcast continues after a nested disposal; witnesses in `Thm/Counterexamples.lean`). What is proved: those
 messages to non-live members are the ONLY phase-level violations — every member is subscribed exactly once and never after the output
 is over. -/
@@ -35,7 +59,7 @@ theorem C04_combine_partial {α : Type} (n : Nat) :
     ∀ s, SReach (Combine.machine α n) s → ∀ v ∈ s.g.ph.viols, ∃ i p, v = Viol.upNotLive i p :=
   fun s hs => (Combine.combine_safe_partial n s hs).1
 '''
-EXTRA["05"] = SHARE % ("05", 5, 5) + '''/- `combine!`: C05 is FALSE for this operator (known finding KF1: an upstream `Error` is counted as a completion; the sink never
+EXTRA["05"] = SHARE % ("05", 5, 5) + (PIPE % dict(n=5)) + (ORACLE % dict(n=5)) + '''/- `combine!`: C05 is FALSE for this operator (known finding KF1: an upstream `Error` is counted as a completion; the sink never
 receives it). There is no history class on which the property says anything and holds, hence no `_partial` theorem; the witness is
 `C05_combine_counterexample` in `Thm/Counterexamples.lean`. -/
 '''
